@@ -320,6 +320,31 @@ def run(ctx):
             s_ok = all(c[2][0] == ("const", msg) for c in sends)
     ctx.ob("C17.d", sd.qual, ports == [6445, 20086] and s_ok, "the probe is sent to the target on ports 6445 and 20086", func=sd.qual, file=file, construct="_send_discovery",
            detail={"ports": ports}, fail=f"the probe is sent to ports {ports} / with another payload or target")
+    # ---- C17.e "every device that answers ... is reported": replies are collected for the whole timeout, whatever the target - every normal way
+    # through discover() passes through `await asyncio.sleep(timeout)` with the caller's timeout (a wait that an early reply can end stops
+    # listening while other devices are still answering)
+    from ..absint import EventAnalysis, run_events
+    dsc = ctx.fn(f"{DISC}.discover")
+    dss = summarize(prog, dsc)
+
+    def on_sleep(node, st):
+        if isinstance(node, (ast.FunctionDef, ast.AsyncFunctionDef)):
+            return []
+        for c in ast.walk(node):
+            if isinstance(c, ast.Await) and isinstance(c.value, ast.Call):
+                t = dss.ta.terms_at.get(c.value)
+                if t is not None and call_is(t, "asyncio.sleep") and t[2] and strip(t[2][0]) == ("param", "timeout"):
+                    return ["listened"]
+        return []
+    eas = EventAnalysis(must=True, on_stmt=on_sleep)
+    run_events(prog, dsc, eas)
+    rets_d = [n for n in eas.at if isinstance(n, ast.Return)]
+    ctx.count("discover_returns", len(rets_d))
+    for n in rets_d:
+        ctx.ob("C17.e", dsc.qual, "listened" in eas.at[n], "discover() listens for the whole timeout before it reports (await asyncio.sleep(timeout) on every path)",
+               func=dsc.qual, file=file, node=n,
+               fail="discover() can report without having listened for the whole timeout: devices that answer after the first reply are not reported")
+    ctx.require_min("discover_returns", 1)
     # ---- C17.t18 "every device that answers with a well-formed reply is reported" needs the other hosts' replies, whatever they are, not to
     # abort the run: the per-host containment and de-duplication obligations of C18 are re-run here, not assumed
     from . import c18
